@@ -6,10 +6,12 @@ From Mila Require Import Lib.Bytes Lib.Machine Model.BinArchive Model.BinFormat 
 Import ListNotations.
 Local Open Scope N_scope.
 
-Theorem round_trip kf m a :
-  wf_archive a -> fits32 a ->
-  exists f a',
-    serialize_k kf m a = Ok f /\ wfb f /\ from_bytes (a_endian a) f = Ok a' /\
+(* every SUCCESSFUL serialize of a well-formed archive round-trips: no a-priori size bound - since fix 524d15f (finding F25)
+   serialize succeeds exactly when the image fits the 32-bit sizes of the format (serialize_ok_iff) *)
+Theorem round_trip_ok kf m a f :
+  wf_archive a -> serialize_k kf m a = Ok f ->
+  exists a',
+    wfb f /\ from_bytes (a_endian a) f = Ok a' /\
     a_endian a' = a_endian a /\ a_cstrs a' = [] /\
     (* the same size, plus the c-string pool the format itself appends (nothing without c-strings) *)
     size a' = size a + lenN (pool_bytes a) /\ lenN (pool_bytes a) mod 4 = 0 /\ (a_cstrs a = [] -> size a' = size a) /\
@@ -22,11 +24,11 @@ Theorem round_trip kf m a :
     (* every pending c-string is readable at its cell *)
     (forall s cs cell, In (s, cs) (a_cstrs a) -> In cell cs -> read_c_string a' cell = Ok (Some s)).
 Proof.
-  intros WF FIT.
-  destruct (serialize_conforms kf m a WF FIT) as (f & Hs & Hw & Hc).
+  intros WF Hs.
+  destruct (serialize_ok_conforms kf m a f WF Hs) as (Hw & Hc).
   destruct (parser_correct _ _ _ Hc) as (a' & Hp & Hd & He & Hcs & Gp & Gt & Gl & _).
   destruct (published_data_len kf a WF) as (L1 & L2 & L3).
-  exists f, a'. split; [exact Hs|]. split; [exact Hw|]. split; [exact Hp|]. split; [exact He|]. split; [exact Hcs|].
+  exists a'. split; [exact Hw|]. split; [exact Hp|]. split; [exact He|]. split; [exact Hcs|].
   assert (Hsize : size a' = size a + lenN (pool_bytes a)) by (unfold size at 1; rewrite Hd; exact L1).
   split; [exact Hsize|]. split; [exact L2|]. split; [intros E; rewrite Hsize, (L3 E); apply N.add_0_r|].
   split. { intros i Hi Ho. rewrite Hd. apply published_data_outside; assumption. }
@@ -43,4 +45,21 @@ Proof.
   rewrite Hi. cbn [bind]. rewrite Gp, G1.
   rewrite validate_address_false. unfold size. rewrite Hd.
   destruct (N.ltb_spec p (lenN (c_data (published kf a)))); [|lia]. cbn [bind]. rewrite G3. reflexivity.
+Qed.
+
+(* with the a-priori bound fits32 the image exists *)
+Theorem round_trip kf m a :
+  wf_archive a -> fits32 a ->
+  exists f a',
+    serialize_k kf m a = Ok f /\ wfb f /\ from_bytes (a_endian a) f = Ok a' /\
+    a_endian a' = a_endian a /\ a_cstrs a' = [] /\
+    size a' = size a + lenN (pool_bytes a) /\ lenN (pool_bytes a) mod 4 = 0 /\ (a_cstrs a = [] -> size a' = size a) /\
+    (forall i, (i < N.to_nat (size a))%nat -> outside (cells a) i -> nth_error (a_data a') i = nth_error (a_data a) i) /\
+    (forall x, am_get x (a_text a') = am_get x (a_text a)) /\
+    (forall x, ~ In x (cs_cells a) -> am_get x (a_ptrs a') = am_get x (a_ptrs a)) /\
+    (forall x, am_get x (a_labels a') = am_get x (a_labels a)) /\
+    (forall s cs cell, In (s, cs) (a_cstrs a) -> In cell cs -> read_c_string a' cell = Ok (Some s)).
+Proof.
+  intros WF FIT. destruct (serialize_conforms kf m a WF FIT) as (f & Hs & _).
+  destruct (round_trip_ok kf m a f WF Hs) as (a' & H). exists f, a'. split; [exact Hs | exact H].
 Qed.
